@@ -233,6 +233,9 @@ let ref_warn : (string * string) list ref = ref []
 
 let n_class = ref 0
 let stride = ref (if Array.length Sys.argv > 1 then int_of_string Sys.argv.(1) else 32)
+let n_hist_kept = ref 0
+let n_hist_redumps = ref 0
+let n_hist_again = ref 0
 let n_text_parsed = ref 0
 let n_text_defs_equal = ref 0
 let n_text_defs_differ = ref 0
@@ -416,12 +419,50 @@ let finish_block () =
     end
   end
 
+(* first differing line of two dumps (s:<hex> tokens), printable *)
+let first_diff_line (a : string) (b : string) : string =
+  let raw t = String.concat "" (List.map (fun z -> String.make 1 (Char.chr (int_of_z z))) (bytes_of_s t)) in
+  let la = String.split_on_char '\n' (raw a) and lb = String.split_on_char '\n' (raw b) in
+  let rec go i la lb =
+    match (la, lb) with
+    | x :: la', y :: lb' -> if x = y then go (i + 1) la' lb' else Printf.sprintf "line %d: %S / %S" i x y
+    | x :: _, [] -> Printf.sprintf "line %d: %S / <none>" i x
+    | [], y :: _ -> Printf.sprintf "line %d: <none> / %S" i y
+    | [], [] -> "equal"
+  in
+  go 1 la lb
+
 let handle line =
   if String.length line >= 4 && String.sub line 0 4 = "UNI " then begin
     match split_ws line with
     | [ "UNI"; "L"; lo; hi ] -> letters := (int_of_string ("0x" ^ lo), int_of_string ("0x" ^ hi)) :: !letters
     | [ "UNI"; "D"; lo; hi ] -> digits := (int_of_string ("0x" ^ lo), int_of_string ("0x" ^ hi)) :: !digits
     | _ -> failwith ("bad UNI line: " ^ line)
+  end
+  else if String.length line >= 5 && String.sub line 0 5 = "HIST " then begin
+    (* results are values: a CompileResult that the caller keeps must not change when later files are
+       compiled, and compiling the same text again must give the same result (decided by the harness on
+       two dumps of the implementation's own objects; for the model this is trivial) *)
+    match split_ws line with
+    | [ "HIST"; "kept"; f; v; n; "same" ] ->
+        incr n_hist_kept; n_hist_redumps := !n_hist_redumps + int_of_string ("0x" ^ n);
+        note_case ~nontrivial:(n <> "0") "history:kept" (Printf.sprintf "kept file=%s variant=%s" f v)
+    | [ "HIST"; "kept"; f; v; n; "changed"; kf; kv; before; now; ktext; ltext ] ->
+        incr n_hist_kept;
+        note_case "history:kept" (Printf.sprintf "kept file=%s variant=%s" f v);
+        pfail (Printf.sprintf "history kept_file=%s kept_variant=%s after_file=%s after_variant=%s text=%s then=%s" kf kv f v ktext ltext)
+          [ ("kept_result_changed",
+             Printf.sprintf "the CompileResult of an earlier Compile call (kept by the caller) changed when a later text was compiled: first difference (dump right after its call / dump now) %s"
+               (first_diff_line before now)) ]
+    | [ "HIST"; "again"; f; v; "same" ] ->
+        incr n_hist_again; note_case "history:again" (Printf.sprintf "again file=%s variant=%s" f v)
+    | [ "HIST"; "again"; f; v; "changed"; d1; d2; t ] ->
+        incr n_hist_again; note_case "history:again" (Printf.sprintf "again file=%s variant=%s" f v);
+        pfail (Printf.sprintf "history again_file=%s variant=%s text=%s" f v t)
+          [ ("recompile_differs",
+             Printf.sprintf "compiling the same text again after other texts gives another result: first difference (first / second) %s"
+               (first_diff_line d1 d2)) ]
+    | _ -> failwith ("bad HIST line: " ^ String.sub line 0 (min 80 (String.length line)))
   end
   else if String.length line >= 5 && String.sub line 0 5 = "CASE " then begin header := line; block := []; text := "" end
   else if String.length line >= 5 && String.sub line 0 5 = "TEXT " then text := String.sub line 5 (String.length line - 5)
@@ -446,8 +487,8 @@ let () =
   let hs = Hashtbl.fold (fun k v acc -> Printf.sprintf "\"%s\":%d" (json_escape k) v :: acc) hist [] in
   let ss = List.map (fun s -> "\"" ^ json_escape s ^ "\"") (List.rev !samples) in
   Printf.printf
-    "STATS {\"cases\":%d,\"mismatches\":%d,\"distinct_nontrivial\":%d,\"kinds\":{%s},\"samples\":[%s],\"class_cases\":%d,\"texts_parsed_by_the_parser_model\":%d,\"texts_with_parser_defs_equal_to_model\":%d,\"texts_with_parser_defs_different\":%d,\"permuted_orders_compared\":%d,\"cases_with_warnings\":%d,\"warnings_total\":%d,\"predicate_failures\":%d,\"disagreements\":%d,\"failed_clauses\":{%s},\"histogram\":{%s}}\n"
+    "STATS {\"cases\":%d,\"mismatches\":%d,\"distinct_nontrivial\":%d,\"kinds\":{%s},\"samples\":[%s],\"class_cases\":%d,\"texts_parsed_by_the_parser_model\":%d,\"texts_with_parser_defs_equal_to_model\":%d,\"texts_with_parser_defs_different\":%d,\"history_compiles_followed_by_redump_of_kept_results\":%d,\"history_kept_results_redumped\":%d,\"history_texts_compiled_again\":%d,\"permuted_orders_compared\":%d,\"cases_with_warnings\":%d,\"warnings_total\":%d,\"predicate_failures\":%d,\"disagreements\":%d,\"failed_clauses\":{%s},\"histogram\":{%s}}\n"
     !n_cases !n_mismatch !n_nontrivial (String.concat "," (List.sort compare ks)) (String.concat "," ss)
-    !n_class !n_text_parsed !n_text_defs_equal !n_text_defs_differ !n_perm_compared !n_warn_cases !n_warnings !n_pfail !n_disagree
+    !n_class !n_text_parsed !n_text_defs_equal !n_text_defs_differ !n_hist_kept !n_hist_redumps !n_hist_again !n_perm_compared !n_warn_cases !n_warnings !n_pfail !n_disagree
     (String.concat "," (Hashtbl.fold (fun k v acc -> Printf.sprintf "\"%s\":%d" (json_escape k) v :: acc) clause_count []))
     (String.concat "," (List.sort compare hs))
